@@ -9,6 +9,7 @@ import (
 	"time"
 	"unicode/utf8"
 
+	"github.com/tormoder/fit/dyncrc16"
 	"github.com/tormoder/fit/internal/types"
 )
 
@@ -254,4 +255,56 @@ func vSameUpToProfile(got, orig reflect.Value) {
 			vAssert(a.Interface() == b.Interface(), "C07.values.scalar")
 		}
 	}
+}
+
+// H07b: the header of the input is arbitrary where Decode does not pin it:
+// protocol version and profile version bytes symbolic (header CRC recomputed
+// or left 0), 12- or 14-byte header. Whatever Decode accepts, Encode of the
+// result must succeed, pass CheckIntegrity and decode to the same content.
+func H07b() {
+	file := vSmallFile()
+	if vBool() {
+		// 12-byte header
+		file = append([]byte{}, file[:12]...)
+		file[0] = 12
+		file = append(file, vSmallFile()[14:len(vSmallFile())-2]...)
+		file = append(file, 0, 0)
+	}
+	hs := int(file[0])
+	file[1] = vByte()
+	file[2], file[3] = vByte(), vByte()
+	if hs == 14 {
+		if vBool() {
+			c := dyncrc16.Checksum(file[:12])
+			file[12], file[13] = byte(c), byte(c>>8)
+		} else {
+			file[12], file[13] = 0, 0
+		}
+	}
+	fc := dyncrc16.Checksum(file[:len(file)-2])
+	file[len(file)-2], file[len(file)-1] = byte(fc), byte(fc>>8)
+	f, err := Decode(bytes.NewReader(file))
+	if err != nil || f == nil {
+		vReached("rejected")
+		vReached("end")
+		return
+	}
+	vReached("accepted")
+	var order binary.ByteOrder = binary.LittleEndian
+	if vBool() {
+		order = binary.BigEndian
+	}
+	var w bytes.Buffer
+	eerr := Encode(&w, f, order)
+	vAssert(eerr == nil, "C07.encode-accepts-decoded")
+	if eerr == nil {
+		vAssert(CheckIntegrity(bytes.NewReader(w.Bytes()), false) == nil, "C07.output-passes-checkintegrity")
+		g, gerr := Decode(bytes.NewReader(w.Bytes()))
+		vAssert(gerr == nil && g != nil, "C07.output-decodes")
+		if gerr == nil && g != nil {
+			vSameContent(f, g, 3, "C07.fixpoint")
+			vAssert(g.Header.ProtocolVersion == f.Header.ProtocolVersion && g.Header.ProfileVersion == f.Header.ProfileVersion, "C07.header-versions-kept")
+		}
+	}
+	vReached("end")
 }
